@@ -311,12 +311,26 @@ class PageBreakCalculator(BaseModel):
                 col_name = df.columns[col_idx]
                 cell_value = str(df[col_name][row_idx])
 
-                # Font logic
+                # Font logic: measure with the cell's own font and size
+                # (table_attrs is indexed by displayed column, like col_widths)
                 actual_font_size = font_size
                 actual_font = 1
 
-                if table_attrs:
-                    pass
+                if table_attrs is not None:
+                    from ..attributes import BroadcastValue
+
+                    cell_size = BroadcastValue(
+                        value=getattr(table_attrs, "text_font_size", None),
+                        dimension=None,
+                    ).iloc(row_idx, width_idx)
+                    if isinstance(cell_size, (int, float)) and cell_size > 0:
+                        actual_font_size = cell_size
+                    cell_font = BroadcastValue(
+                        value=getattr(table_attrs, "text_font", None),
+                        dimension=None,
+                    ).iloc(row_idx, width_idx)
+                    if isinstance(cell_font, int) and 1 <= cell_font <= 10:
+                        actual_font = cell_font
 
                 text_width = get_string_width(
                     cell_value,
